@@ -25,6 +25,8 @@ STATE = {"active": False, "fd": -1, "index": {}, "delays": {}, "parent": None, "
 class PoolHang(BaseException):
     """BaseException: must pass through ``mon.lib`` (which turns Exceptions into violations)."""
 
+    deaths = {}
+
 
 def install():
     import pydrobert.torch._parsing as P
@@ -74,29 +76,74 @@ def is_bound():
     return getattr(P._trn_line_to_transcript, "_vmon_wrapped", False)
 
 
-def observed_call(fn, lines, delays_ms, logpath, timeout=120.0):
+def observed_call(fn, lines, delays_ms, logpath, timeout=90.0):
     """Run ``fn()`` (a multi-process read) with logging/delays active in the forked workers.
 
     lines: the file's lines exactly as the reader's file iteration yields them.
-    Returns (result, log) with log = list of (pid, index, t_start, t_end)."""
+    Returns (result, log) with log = list of (pid, index, t_start, t_end).
+
+    Raises PoolHang when the call did not come back within `timeout` (a pool never finishes if one of its
+    workers is killed, e.g. by the OOM killer).  Once the timer has fired *every* exception out of the call
+    is reported as PoolHang: interrupting ``Condition.wait`` can leave the pool's locks in a state in which
+    the unwinding itself raises (``RuntimeError: release unlocked lock``).  ``PoolHang.deaths`` lists the
+    workers (pid -> exit code, negative = signal) that the pool's own maintenance thread had found dead
+    before the timer fired; nothing is reaped or killed here."""
     st = STATE
+    if os.path.exists(logpath):
+        os.remove(logpath)
     fd = os.open(logpath, os.O_WRONLY | os.O_CREAT | os.O_APPEND, 0o600)
     index = {}
     for j, ln in enumerate(lines):
         index.setdefault(ln, j)  # identical (blank) lines share the index of their first occurrence
     st.update(active=True, fd=fd, parent=os.getpid(), index=index,
               delays={j: d / 1000.0 for j, d in enumerate(delays_ms) if d})
+    fired = []
+    deaths = {}
+    me = os.getpid()
 
     def on_alarm(signum, frame):
+        if os.getpid() != me:
+            return
+        fired.append(time.monotonic())
         raise PoolHang("multi-process read did not finish within %.0fs" % timeout)
 
+    # diagnosis only: see the exit codes of workers the pool's own maintenance thread collects
+    import multiprocessing.pool as mpp
+
+    join_attr = mpp.Pool.__dict__.get("_join_exited_workers")
+    join_fn = getattr(join_attr, "__func__", None)
+
+    def spy(pool):
+        try:
+            for w in pool:
+                ec = w.exitcode
+                if ec is not None and ec != 0:
+                    deaths.setdefault(w.pid, (ec, time.monotonic()))
+        except Exception:
+            pass
+        return join_fn(pool)
+
+    if join_fn is not None:
+        mpp.Pool._join_exited_workers = staticmethod(spy)
     old = signal.signal(signal.SIGALRM, on_alarm)
     signal.setitimer(signal.ITIMER_REAL, timeout)
+    t_begin = time.monotonic()
     try:
-        result = fn()
+        try:
+            result = fn()
+        except BaseException as e:
+            if fired:
+                h = e if isinstance(e, PoolHang) else PoolHang("%s (then %s: %s)" % (
+                    "multi-process read did not finish within %.0fs" % timeout, type(e).__name__, e))
+                # workers that were gone before the timer fired (later ones are the pool's own terminate())
+                h.deaths = {p: ec for p, (ec, t) in deaths.items() if t < fired[0]}
+                raise h from None
+            raise
     finally:
         signal.setitimer(signal.ITIMER_REAL, 0)
         signal.signal(signal.SIGALRM, old)
+        if join_fn is not None:
+            mpp.Pool._join_exited_workers = join_attr
         st.update(active=False, fd=-1, index={}, delays={})
         os.close(fd)
     log = []
@@ -105,4 +152,5 @@ def observed_call(fn, lines, delays_ms, logpath, timeout=120.0):
             a = ln.split()
             if len(a) == 4:
                 log.append((int(a[0]), int(a[1]), float(a[2]), float(a[3])))
+    STATE["last_call_s"] = time.monotonic() - t_begin
     return result, log
